@@ -883,7 +883,11 @@ func (st *c05State) collectExtras(dump string) (synthetic []*c05Unit) {
 		if len(yl) > n {
 			n = len(yl)
 		}
-		sm.count("host programs")
+		lvl := "host"
+		if e.input["level"] == "polysite" {
+			lvl = "polysite"
+		}
+		sm.count(lvl + " programs")
 		bad := false
 		for i := 0; i < n; i++ {
 			var a, b string
@@ -898,8 +902,8 @@ func (st *c05State) collectExtras(dump string) (synthetic []*c05Unit) {
 			}
 			sm.Evaluations++
 			sm.RefComparisons++
-			sm.count("host:line")
-			st.distinct.add("host", e.src, fmt.Sprint(i))
+			sm.count(lvl + ":line")
+			st.distinct.add(lvl, e.src, fmt.Sprint(i))
 			if a != b && !bad {
 				bad = true
 				in := map[string]any{}
